@@ -384,8 +384,28 @@ func judge(c *fw.Ctx, hdr *header, recs []*Record, brackets map[int]*Bracket) st
 			c.Inconclusive(r.Inconclusive)
 			continue
 		}
-		bad := len(r.Viol)
+		// The accept log of the harness targets attributes a connection to the session during which it was logged; the
+		// syscall trace attributes a connect() to the session between whose markers it was made. Where the trace is there
+		// and shows no connect() to a harness target inside the session's bracket, a connection logged by a target meanwhile
+		// was not dialled by this session's handler (it was made outside the bracket): recorded, not judged.
+		tracedNoDial := false
+		if brackets != nil {
+			if br := brackets[r.N]; br != nil && br.Closed {
+				tracedNoDial = true
+				for _, ev := range br.Events {
+					if ev.Call == "connect" && isInet(ev.Family) && hdr.Ports.IsTarget(ev.Port) {
+						tracedNoDial = false
+					}
+				}
+			}
+		}
+		bad := 0
 		for _, v := range r.Viol {
+			if tracedNoDial && strings.HasPrefix(v.Sig, "C16 accept:") {
+				c.Obs("target_accepts_without_a_connect_in_the_session's_trace_bracket", 1)
+				continue
+			}
+			bad++
 			c.Violation(v.Sig, v.What, r.Witness)
 		}
 		detail := "[" + r.Reason + " " + strings.SplitN(r.Class[2], "/", 2)[0] + " creds=" + r.CredLabel + "]"
